@@ -98,6 +98,15 @@ func c09Child(args []string) int {
 	if len(args) > 2 {
 		fsize, _ = strconv.ParseInt(args[2], 10, 64)
 	}
+	// optional: a further assignment the same process is sent after a rejected (not acknowledged) update
+	var follow map[string][]*target.Target
+	if len(args) > 3 {
+		fb, err := os.ReadFile(args[3])
+		if err != nil || json.Unmarshal(fb, &follow) != nil {
+			fmt.Println("CHILD-ERROR follow", err)
+			return 3
+		}
+	}
 	var next map[string][]*target.Target
 	b, err := os.ReadFile(nextFile)
 	if err != nil {
@@ -115,7 +124,9 @@ func c09Child(args []string) int {
 	}
 	if fsize >= 0 {
 		signal.Ignore(syscall.SIGXFSZ)
-		lim := syscall.Rlimit{Cur: uint64(fsize), Max: uint64(fsize)}
+		var old syscall.Rlimit
+		_ = syscall.Getrlimit(syscall.RLIMIT_FSIZE, &old)
+		lim := syscall.Rlimit{Cur: uint64(fsize), Max: old.Max}
 		if err := syscall.Setrlimit(syscall.RLIMIT_FSIZE, &lim); err != nil {
 			fmt.Println("CHILD-ERROR", err)
 			return 3
@@ -125,6 +136,18 @@ func c09Child(args []string) int {
 	os.Stdout.WriteString("BEGIN\n")
 	if err := tm.UpdateTargets(&shard.UpdateTargetsRequest{Targets: next}); err != nil {
 		os.Stdout.WriteString("NACK " + strings.ReplaceAll(err.Error(), "\n", " ") + "\n")
+		if follow != nil {
+			if fsize >= 0 {
+				var old syscall.Rlimit
+				_ = syscall.Getrlimit(syscall.RLIMIT_FSIZE, &old)
+				_ = syscall.Setrlimit(syscall.RLIMIT_FSIZE, &syscall.Rlimit{Cur: old.Max, Max: old.Max})
+			}
+			if err := tm.UpdateTargets(&shard.UpdateTargetsRequest{Targets: follow}); err != nil {
+				os.Stdout.WriteString("NACK2 " + strings.ReplaceAll(err.Error(), "\n", " ") + "\n")
+				return 0
+			}
+			os.Stdout.WriteString("ACK2\n")
+		}
 		return 0
 	}
 	idle := "nil"
@@ -148,6 +171,23 @@ func c09LoadDir(dir string) c09Load {
 		return c09Load{Err: err.Error()}
 	}
 	info := tm.TargetsInfo()
+	return c09Load{Targets: canonTargets(info.Targets), N: nTargets(info.Targets), IdleAt: info.IdleAt}
+}
+
+// c09LoadDirFailingCallbacks: a start during which the update callbacks fail (Prometheus not ready for the
+// reload yet): what the sidecar reports afterwards.
+func c09LoadDirFailingCallbacks(dir string) c09Load {
+	tm := sidecar.NewTargetsManager(dir, prometheus.NewRegistry(), h1Quiet())
+	tm.AddUpdateCallbacks(func(map[string][]*target.Target) error { return fmt.Errorf("scripted: reload failed") })
+	_ = tm.Load() // cmd/kvass only logs the result
+	info := tm.TargetsInfo()
+	n := 0
+	for range info.Status {
+		n++
+	}
+	if n != nTargets(info.Targets) {
+		return c09Load{Err: fmt.Sprintf("status has %d entries for %d targets", n, nTargets(info.Targets))}
+	}
 	return c09Load{Targets: canonTargets(info.Targets), N: nTargets(info.Targets), IdleAt: info.IdleAt}
 }
 
@@ -181,10 +221,14 @@ func init() {
 			os.WriteFile(p, b, 0o644)
 			return p
 		}
+		followFile := ""
 		runChild := func(dir, nextFile string, fsize int64, strace []string) (string, int) {
 			args := []string{"-child", "c09child", dir, nextFile}
-			if fsize >= 0 {
+			if fsize >= 0 || followFile != "" {
 				args = append(args, fmt.Sprint(fsize))
+			}
+			if followFile != "" {
+				args = append(args, followFile)
 			}
 			var cmd *exec.Cmd
 			if strace != nil {
@@ -302,6 +346,27 @@ func init() {
 					}
 				}
 			}
+			// a rejected update is followed by another assignment (the previous one again) in the same process;
+			// when that one is acknowledged the next start resumes exactly it
+			judgeFollow := func(run func() (string, string), fault interface{}, kind string) {
+				followFile = prevFile
+				dir, out := run()
+				followFile = ""
+				r.Transitions++
+				if !strings.Contains(out, "ACK2") {
+					return // not acknowledged: nothing promised beyond what judge() checked
+				}
+				r.Counters["rejected_update_followed_by_acknowledged_one"]++
+				for round := 0; round < 2; round++ {
+					l := c09LoadDir(dir)
+					rp := &c09Replay{Property: "C09", Clause: "acknowledged-survives", Prev: pr.prev, Next: pr.next + ", then " + pr.prev + " again", Fault: fault, Child: out, Loaded: map[string]interface{}{"err": l.Err, "n": l.N}}
+					if l.Err != "" {
+						r.Violate("C09:start-fails:after-rejected-update:"+kind, "next-start-succeeds", fmt.Sprintf("%s -> %s rejected (fault %v), then %s acknowledged: the next start fails: %s", pr.prev, pr.next, fault, pr.prev, l.Err), idx, rp)
+					} else if l.Targets != canonTargets(prevT) {
+						r.Violate("C09:ack-lost:after-rejected-update:"+kind, "acknowledged-survives", fmt.Sprintf("%s -> %s rejected (fault %v), then %s acknowledged: the next start resumes something else (%d targets)", pr.prev, pr.next, fault, pr.prev, l.N), idx, rp)
+					}
+				}
+			}
 			// (1) no fault
 			d := fresh()
 			out, _ := runChild(d, nextFile, -1, nil)
@@ -312,6 +377,20 @@ func init() {
 			}
 			judge(d, out, "none", "no-fault")
 			nextBytes, _ := os.ReadFile(filepath.Join(d, "kvass-shard.json"))
+			// a start during which the update callbacks fail still resumes the acknowledged assignment,
+			// and so does the start after it
+			{
+				lf := c09LoadDirFailingCallbacks(d)
+				l2 := c09LoadDir(d)
+				r.Transitions += 2
+				for i, l := range []c09Load{lf, l2} {
+					which := []string{"start-with-failing-callbacks", "start-after-it"}[i]
+					if l.Err != "" || l.Targets != canonTargets(nextT) {
+						r.Violate("C09:ack-lost:"+which, "resume-exactly", fmt.Sprintf("%s acknowledged; a start during which the update callbacks fail: the %s reports %d targets (%s)", pr.next, which, l.N, l.Err), idx,
+							&c09Replay{Property: "C09", Clause: "resume-exactly", Prev: pr.prev, Next: pr.next, Fault: "update callbacks fail during the start", Loaded: map[string]interface{}{"err": l.Err, "n": l.N}})
+					}
+				}
+			}
 			// (2) file-size limit at every byte offset
 			step := 1
 			if len(nextBytes) > 2000 && !(c.Thorough() && pr.prev == "b-one") {
@@ -326,6 +405,14 @@ func init() {
 				r.States++
 				r.Nontrivial++
 				judge(d, out, map[string]interface{}{"file_size_limit": n, "of": len(nextBytes)}, "write-cut")
+				if strings.Contains(out, "NACK") && (step == 1 || n%(step*8) == 0) {
+					n := n
+					judgeFollow(func() (string, string) {
+						d := fresh()
+						o, _ := runChild(d, nextFile, int64(n), nil)
+						return d, o
+					}, map[string]interface{}{"file_size_limit": n, "of": len(nextBytes)}, "write-cut")
+				}
 				r.Outcome(fmt.Sprintf("cut/%v", strings.Contains(out, "NACK")))
 			}
 			// (3) every store-directory system call of the un-faulted run: process killed / ENOSPC
@@ -404,6 +491,14 @@ func init() {
 						kind = "syscall-error"
 					}
 					judge(d, out, map[string]interface{}{"syscall": sp[0], "occurrence": sp[1], "inject": inj}, kind)
+					if inj != "signal=KILL" && strings.Contains(out, "NACK") {
+						inj := inj
+						judgeFollow(func() (string, string) {
+							d := fresh()
+							o, _ := runChild(d, nextFile, -1, []string{"-f", "-y", "-e", "trace=" + sp[0], "-e", fmt.Sprintf("inject=%s:%s:when=%s", sp[0], inj, sp[1]), "-o", tf})
+							return d, o
+						}, map[string]interface{}{"syscall": sp[0], "occurrence": sp[1], "inject": inj}, kind)
+					}
 					r.Outcome(fmt.Sprintf("%s/%s/%v", sp[0], inj, strings.Contains(out, "NACK")))
 				}
 			}
